@@ -151,7 +151,7 @@ def run(ctx):
         inp_r = {"consts": {k: v for k, v in gr.items() if isinstance(v, int)}, "behaviours": behs_r}
     def run_q(inp, label):
         p = ctx.write_json("behQ-%s.json" % label, inp)
-        return ctx.go_test(PKG, FILES, "^TestVerifHHReplayQ$", env={"VERIF_IN": p}, timeout=1200, label=label)
+        return ctx.go_test(PKG, FILES, "^TestVerifHHReplayQ$", env={"VERIF_IN": p}, timeout=ctx.pick(1200, 3600), label=label)
     def confirm(rp):
         recs, out, rc = run_q({"consts": rp["consts"], "behaviours": [rp["behaviour"]]}, "confirm")
         return any(r.get("k") == "mismatch" for r in recs)
